@@ -291,6 +291,15 @@ impl AuthOracle {
         let mut known: BTreeMap<u64, Vec<u8>> = BTreeMap::new();
         let mut max_rpt = 0u64;
         for p in t.pkts.iter().filter(|p| !p.enc && p.ok && p.inc == inc) {
+            // sequence number 0 is the source connection ID of the peer's handshake packets (its
+            // token travels in the transport parameters): adopted on the first packet accepted
+            // from the peer, possibly long before anything can be sent to it (a congestion-blocked
+            // client says nothing for a while after the server's first flight)
+            if let Ok(h) = wire::plain_header(&p.header) {
+                if !h.scid.is_empty() {
+                    known.entry(0).or_insert(h.scid);
+                }
+            }
             for f in wire::frames(&p.payload).0 {
                 if let Frame::NewConnectionId { seq, retire_prior_to, cid, .. } = f {
                     known.insert(seq, cid);
